@@ -240,6 +240,23 @@ def _model(pdk, table, idx, sized, mult):
     P.compile(m2)
     if m2.instances["x"].of is not of:
         return _fail(f"{pdk}.{table}[{model}]: equal parameters gave a different device call")
+    # a model name that is NOT in the table - a truncated or otherwise partial name of this entry - raises a descriptive error
+    for bad_name in (model[:-1], model[1:], model[: len(model) // 2], model + "_x"):
+        if not bad_name or any((k[0] if isinstance(k, tuple) else k) == bad_name for k in keys):
+            continue
+        mb = h.Module(name="TB")
+        pb = {p: mb.add(h.Port(name=p)) for p in prim.ports}
+        try:
+            mb.x = prim(model=bad_name)(**pb)
+        except Exception:
+            continue
+        try:
+            P.compile(mb)
+        except BAD as ex:
+            return _fail(f"{pdk}.{table}: unknown model {bad_name!r}: non-descriptive {type(ex).__name__}")
+        except Exception:
+            continue
+        return _fail(f"{pdk}.{table}: unknown model {bad_name!r} compiled to {getattr(getattr(mb.instances['x'].of, 'module', None), 'name', '?')} instead of raising")
     # ... and different parameters a different one: the same model again, later in the same process, with another multiplier / width
     kw3 = dict(kw)
     if "mult" in fields:
